@@ -143,7 +143,9 @@ var noiseKeyRaw = libsa.Raw{Suite: ref.Suite{EncKeyLen: 16, Integ: ref.HSHA1}, P
 func noise(seed uint64) {
 	r := core.NewRng(seed, 0x6e6f697365)
 	core.Try(func() {
-		switch r.Intn(11) {
+		switch r.Intn(12) {
+		case 11: // the application LOGS type codes it met (known and unknown ones): String() / %v of every enum-like type
+			logTypeCodes(r.Intn(256), 1+r.Intn(6))
 		case 9: // a garbage collection (empties sync.Pools, runs finalizers, may move nothing but changes timing)
 			if r.Chance(1, 8) {
 				runtime.GC()
@@ -224,6 +226,18 @@ func noise(seed uint64) {
 }
 
 // noiseFor: unrelated activity before about every third case of a workload that does not go through the wrappers below.
+// logTypeCodes formats n consecutive code points of each of the library's enum-like types, starting at `from`.
+func logTypeCodes(from, n int) {
+	for i := 0; i < n; i++ {
+		c := uint8(from + i)
+		core.Try(func() {
+			_ = message.IkePayloadType(c).String()
+			_ = fmt.Sprintf("%v %s", eap.EapType(c), eap.EapAkaPrimeAttrType(c))
+		})
+	}
+	core.GlobalCount("type_codes_logged_by_the_application")
+}
+
 func noiseFor(k *core.Case) {
 	if k.Index%3 == 1 {
 		noise(uint64(k.Index)*0x9e3779b97f4a7c15 ^ core.StrSeed(k.Family))
